@@ -437,11 +437,28 @@ Example C11_parse_encode_partial_F9_sta :
   In [1; 2; seg4 0x44 0x45 0x56 0x30; seg4 0x5f 0x53 0x54 0x41; OP_METHOD; OP_BYTE; 1; 0; 0; 0xa4; 0; 1; OP_BYTE; 1; 0x0f; 0] (snd (parse_program f9_program)).
 Proof. vm_compute. tauto. Qed.
 
-(** outside F9: a statement outside a Method body, an operand that is a Local object, Store (has a Target), a Scope directive *)
+(** statements outside Method bodies: anonymous entries of the top level and of a Device *)
+Definition f9b_program : list (list ast) :=
+  [[AOp 0x121 [AConst OP_BYTE 5];
+    AName (f0_nm 0x41 0x42 0x43 0x44) (AConst 0x01 0);
+    ADevice 1 (f0_nm 0x44 0x45 0x56 0x30)
+      [AOp 0x93 [AConst OP_BYTE 5; AConst 0x00 0]; AName (f0_nm 0x41 0x42 0x43 0x44) (AConst 0x01 0); AOp 0xcc [];
+       AMethod 1 (f0_nm 0x4d 0x54 0x48 0x30) 0 [AOp 0xa4 [AConst 0x01 0]]; AOp 0xa4 [AStr [0x41]]];
+    AOp 0xa4 [AConst 0xff 0]]].
+
+Example C11_parse_encode_partial_F9_anywhere :
+  wf_program f9b_program = true /\ in_fragment_F9 f9b_program = true /\ parse_encode_statement f9b_program /\
+  length (ns f9b_program) = 9%nat /\ In [2; 1; seg4 0x44 0x45 0x56 0x30; 0x93; 0; 2; OP_BYTE; 1; 5; 0; 0; 0; 0] (ns f9b_program).
+Proof.
+  split; [vm_compute; reflexivity|]. split; [vm_compute; reflexivity|].
+  split; [apply C11_parse_encode_partial_F9; vm_compute; reflexivity|]. split; [vm_compute; reflexivity|vm_compute; tauto].
+Qed.
+
+(** outside F9: an operand that is a Local object, Store (has a Target), If, a Scope directive, two tables *)
 Example C11_fragment_F9_excludes :
-  in_fragment_F9 [[AOp 0xa4 [AConst 0x01 0]]] = false /\
-  in_fragment_F9 [[ADevice 1 (f0_nm 0x44 0x45 0x56 0x30) [AOp 0xa4 [AConst 0x01 0]]]] = false /\
   in_fragment_F9 [[AMethod 1 (f0_nm 0x4d 0x54 0x48 0x30) 0 [AOp 0xa4 [AOp 0x60 []]]]] = false /\
   in_fragment_F9 [[AMethod 1 (f0_nm 0x4d 0x54 0x48 0x30) 0 [AOp 0x70 [AConst 0x01 0; AOp 0x60 []]]]] = false /\
-  in_fragment_F9 [[AScope 1 (mkName true 0 false [seg4 0x5f 0x53 0x42 0x5f]) []]] = false.
+  in_fragment_F9 [[AMethod 1 (f0_nm 0x4d 0x54 0x48 0x30) 0 [AIf 1 (AConst 0x01 0) [AOp 0xa4 [AConst 0x01 0]]]]] = false /\
+  in_fragment_F9 [[AScope 1 (mkName true 0 false [seg4 0x5f 0x53 0x42 0x5f]) []]] = false /\
+  in_fragment_F9 [[]; []] = false.
 Proof. vm_compute. repeat split. Qed.
